@@ -42,6 +42,8 @@ QUICK = [
     _c('window_one_step_onevar', 'contract_storage', dict(T=3, eff=None, win_s=(1, 2), storage_kw=dict(costs=False))),
     _c('window_inside_repeated_setup', 'contract_storage', dict(T=4, win_s=(1, 3)), 'B', dict(warmup=True)),
     _c('in_portfolio_not_last', 'two_node', dict(T=2)),
+    _c('storage_first_then_asset_with_later_window', 'contract_storage', dict(T=4, win_c=(2, 4), storage_first=True)),
+    _c('windowed_storage_first_then_asset_on_whole_horizon', 'contract_storage', dict(T=4, win_s=(1, 3), storage_first=True)),
     _c('two_nodes', 'two_node', dict(T=2, two_node_storage=True)),
     _c('no_simult', 'contract_storage', dict(T=2, storage_kw=dict(no_simult_in_out=True)), 'A'),
     _c('no_simult_two_nodes_lossless_costfree', 'two_node', dict(T=2, two_node_storage=True, eff_s=None, storage_kw=dict(no_simult_in_out=True, costs=False)), 'A'),
